@@ -78,6 +78,29 @@ theorem leaf_classes :
     leafSummary.lookup "protocol::encode_manifest" = some [.length_error] ∧
     leafSummary.lookup "crypto::Shamir::combine" = some [.invalid_argument] := by decide +kernel
 
+/-! ### "stop serving others": the serial accept loops (known finding C35-K1)
+
+Full statement one would like: a client that connects and then stays silent does not delay any
+other client.  It is false for a serial accept loop that reads without a bound
+(`C35_counterexample`); what holds is `C35_partial`: when no queued connection is silent every
+client is reached, and with a read timeout `T` a client is reached after at most
+`(number of clients before it) × max T (longest request)`.  The transport accept loop has the
+bound after `fixes/C35-accept-peer-id-timeout` (2 s for the whole inbound handshake); the control
+accept loop has none: the finding listed in known_findings.d/C35.json, observed by `rt stall`. -/
+
+/-- without a read timeout, one silent client ahead in the queue and the next client is never reached -/
+theorem C35_counterexample : pickedUpAt none [.silent, .completes 1] 1 = none := by decide
+
+/-- what does hold for the serial accept loops -/
+theorem C35_partial :
+    (∀ (cs : List Conn) (T : Option Nat), (∀ c ∈ cs, c ≠ .silent) → ∀ k, (pickedUpAt T cs k).isSome = true) ∧
+    (∀ (T B : Nat) (cs : List Conn), (∀ w, Conn.completes w ∈ cs → w ≤ B) →
+      ∀ k, ∃ t, pickedUpAt (some T) cs k = some t ∧ t ≤ k * max T B) :=
+  ⟨fun cs T h => pickedUpAt_no_silent cs h T, pickedUpAt_bounded⟩
+
+/-- the probe's expectation follows the flag regenerated from the source: bounded read ⇒ served -/
+theorem probe_expectation : secondClientServed true = true ∧ secondClientServed false = false := by decide
+
 /-! ### non-vacuity: the theorem is about a tree with live primitives, and it distinguishes -/
 
 /-- the generated tree is not empty: it has primitives reachable from the reader thread and from
